@@ -13,6 +13,10 @@ var purePkgs = map[string]bool{
 	"sha3": true, "rlp": true, "atomic": true, "filepath": true, "io": true, "ioutil": true,
 }
 
+// packages of the governance contracts: they read (and write) contract storage.  Calls into them that the model drops as
+// read-only (purePkgs / "pure" in pkgFuncs) are recorded in vmguards.json like the state getters (see pureMethods).
+var govPkgs = map[string]bool{"name": true, "system": true, "enterprise": true}
+
 // package-qualified functions of state-carrying packages
 var pkgFuncs = map[string]string{
 	"state.SendBalance":                "mut:balance",
